@@ -513,6 +513,7 @@ class UpdaterModel:
                 if ctors:
                     prefix = pre_
                     break
+        self.ctor_prefix = prefix
         # several constructors (`new` delegating to a generic `with_tracker`): the outermost one, which fixes every part
         outer = [b for b in ctors if not any(o is not b and common.reaches_call(fb, o, lambda n, p_=b.path: n == p_) for o in ctors)]
         ctor = (outer or ctors or [None])[-1]
